@@ -57,6 +57,13 @@ def getBytes (kv : KV) (k : String) : Except String (List Nat) :=
     | some b => .ok b
     | none => .error s!"{k}={v}"
 
+def getNats (kv : KV) (k : String) : Except String (List Nat) :=
+  match kv.get k with
+  | none | some "-" => .ok []
+  | some v => match (v.splitOn ",").mapM String.toNat? with
+    | some l => .ok l
+    | none => .error s!"{k}={v}"
+
 def getBits (kv : KV) (k : String) (d : List Bool) : Except String (List Bool) :=
   match kv.get k with
   | none => .ok d
@@ -136,6 +143,7 @@ def envOf (kv : KV) : Except String Env := do
     stakingMin := ← getNat kv "smin" 0
     voteRec := ← getBits kv "vrec" []
     oldVoteOk := ← getBits kv "oldok" []
+    voteAmt := ← getNats kv "vamt"
     candCap := ← getNat kv "cap" 0
     namePrice := ← getNat kv "nprice" 0
     nameOwned := ← getBool kv "nown" false
